@@ -25,6 +25,7 @@ CONSTANTS
   FailSets <- MCFailNone
   Jumps <- MCJumps
   MaxJumps = 2
+  Bounded = TRUE
   Mut = "none"
 INVARIANT NoViolation
 INVARIANT PrintDone
